@@ -540,6 +540,7 @@ func genCachePlan(seed int64, prop, tier string) *CachePlan {
 		nTasks = 1
 	}
 	nextVer := 1
+	lastVer := map[int]int{}
 	totalOps := 0
 	budget := 60
 	for t := 0; t < nTasks; t++ {
@@ -556,8 +557,15 @@ func genCachePlan(seed int64, prop, tier string) *CachePlan {
 			switch {
 			case role < 6: // decoder
 				if r.Intn(3) == 0 {
-					op = CacheOp{Kind: "announce", Key: k, Ver: nextVer}
-					nextVer++
+					if v, ok := lastVer[k]; ok && r.Intn(4) == 0 {
+						// the periodic refresh: the exporter announces the
+						// definition it announced last once more, unchanged
+						op = CacheOp{Kind: "announce", Key: k, Ver: v}
+					} else {
+						op = CacheOp{Kind: "announce", Key: k, Ver: nextVer}
+						lastVer[k] = nextVer
+						nextVer++
+					}
 				} else {
 					op = CacheOp{Kind: "data", Key: k}
 				}
